@@ -548,6 +548,10 @@ def dscore(obs, sim, eps=1e-6):
     # Compute obs rank
     oranks = np.argsort(np.argsort(obs))
 
+    # Forecasts that are all tied do not discriminate
+    if np.std(franks) < EPS:
+        return 0.5
+
     # Compute rank correlation
     D = (np.corrcoef(oranks, franks)[0, 1]+1)/2
 
